@@ -1,9 +1,11 @@
 // Package c17 checks C17: KEYS glob matching follows the documented grammar.
-package c17
+package globref
 
 // Reference matcher written from the documented grammar (util.PattenMatch's doc comment and the
 // Redis KEYS documentation): ? = one byte, * = any run of bytes (also empty), [...] = byte set with
 // a-b ranges and leading ^ negation, \x = literal x.  Three-valued classification of a pattern.
+
+type Class = class
 
 type class int
 
@@ -21,6 +23,8 @@ const (
 	tAny
 	tSet
 )
+
+type Tok = tok
 
 type tok struct {
 	kind tokKind
